@@ -148,6 +148,26 @@ func (c *c20Case) catalogue() []ghfake.Release {
 			add(c20ChecksumFile, []byte(ghfake.Sum(linuxBody)+"  some-other-file.tar.gz\n"))
 		case "empty":
 			add(c20ChecksumFile, []byte(""))
+		case "suffix-name":
+			// the right digest, but recorded for names that merely end in / contain the asset's name
+			add(c20ChecksumFile, []byte(strings.Repeat("0", 64)+"  "+name+"\n"+ghfake.Sum(linuxBody)+"  old-"+name+"\n"+ghfake.Sum(linuxBody)+"  "+name+".sig\n"))
+		case "truncated-digest":
+			add(c20ChecksumFile, []byte(ghfake.Sum(linuxBody)[:63]+"  "+name+"\n"))
+		case "digest-of-payload":
+			// the digest of the unpacked executable instead of the archive
+			add(c20ChecksumFile, []byte(ghfake.Sum(r.payload())+"  "+name+"\n"))
+		case "uppercase", "crlf", "binary-marker":
+			// the right digest in a spelling a checksum tool would also accept: installing and refusing are both right
+			line := ghfake.Sum(linuxBody) + "  " + name + "\n"
+			switch r.Checksum {
+			case "uppercase":
+				line = strings.ToUpper(ghfake.Sum(linuxBody)) + "  " + name + "\n"
+			case "crlf":
+				line = ghfake.Sum(linuxBody) + "  " + name + "\r\n"
+			case "binary-marker":
+				line = ghfake.Sum(linuxBody) + " *" + name + "\n"
+			}
+			add(c20ChecksumFile, []byte(line))
 		}
 		out = append(out, rel)
 	}
@@ -182,7 +202,14 @@ func (c *c20Case) model() (string, int, string) {
 		return "noop", best, "already up to date"
 	}
 	r := c.Releases[best]
-	if r.Checksum != "match" {
+	switch r.Checksum {
+	case "match":
+	case "uppercase", "crlf", "binary-marker":
+		if r.Archive != "good" {
+			return "fail", best, "archive " + r.Archive
+		}
+		return "install-or-fail", best, "checksum spelled " + r.Checksum
+	default:
 		return "fail", best, "checksum " + r.Checksum
 	}
 	if r.Archive != "good" {
@@ -389,6 +416,12 @@ func c20Cases(env *core.Env, rng *rand.Rand) []core.Case {
 		{"checksum-other-file", []c20Release{with(good("v9.9.9"), func(r *c20Release) { r.Checksum = "otherfile" })}},
 		{"checksum-empty", []c20Release{with(good("v9.9.9"), func(r *c20Release) { r.Checksum = "empty" })}},
 		{"checksum-missing", []c20Release{with(good("v9.9.9"), func(r *c20Release) { r.Checksum = "none" })}},
+		{"checksum-for-similar-names", []c20Release{with(good("v9.9.9"), func(r *c20Release) { r.Checksum = "suffix-name" })}},
+		{"checksum-truncated-digest", []c20Release{with(good("v9.9.9"), func(r *c20Release) { r.Checksum = "truncated-digest" })}},
+		{"checksum-of-payload", []c20Release{with(good("v9.9.9"), func(r *c20Release) { r.Checksum = "digest-of-payload" })}},
+		{"checksum-uppercase", []c20Release{with(good("v9.9.9"), func(r *c20Release) { r.Checksum = "uppercase" })}},
+		{"checksum-crlf", []c20Release{with(good("v9.9.9"), func(r *c20Release) { r.Checksum = "crlf" })}},
+		{"checksum-binary-marker", []c20Release{with(good("v9.9.9"), func(r *c20Release) { r.Checksum = "binary-marker" })}},
 		{"archive-corrupt", []c20Release{with(good("v9.9.9"), func(r *c20Release) { r.Archive = "corrupt" })}},
 		{"archive-without-binary", []c20Release{with(good("v9.9.9"), func(r *c20Release) { r.Archive = "nobinary" })}},
 		{"other-platform-only", []c20Release{with(good("v9.9.9"), func(r *c20Release) { r.Platform = "other" })}},
@@ -465,7 +498,7 @@ func c20Cases(env *core.Env, rng *rand.Rand) []core.Case {
 			}
 			used[t] = true
 			c.Releases = append(c.Releases, c20Release{Tag: t, Draft: core.Chance(rng, 1, 8), Prerelease: core.Chance(rng, 1, 8),
-				Platform: core.Pick(rng, "both", "both", "linux", "other", "none", "linux-arm", "arm-first"), Checksum: core.Pick(rng, "match", "match", "match", "mismatch", "otherfile", "none", "empty"),
+				Platform: core.Pick(rng, "both", "both", "linux", "other", "none", "linux-arm", "arm-first"), Checksum: core.Pick(rng, "match", "match", "match", "match", "mismatch", "otherfile", "none", "empty", "suffix-name", "truncated-digest", "digest-of-payload", "uppercase", "crlf", "binary-marker"),
 				Archive: core.Pick(rng, "good", "good", "good", "good", "corrupt", "nobinary")})
 		}
 		if core.Chance(rng, 1, 4) {
@@ -480,7 +513,7 @@ func init() {
 	register(&core.Property{
 		ID:    "C20",
 		Level: "fault_enumeration",
-		Rule: "the built CLI (variants with main.version = v2.0.0, v0.0.0-dev, empty -> 'dev', v2.1.0-rc.1 and v3.0.0-beta.2), copied into a sandbox, runs `self-update` against a fake of the GitHub release API (TLS-intercepting CONNECT proxy, selected only through HTTPS_PROXY / SSL_CERT_FILE). Enumerated: 32 catalogues (newer verified release, checksum mismatching / for another file / empty / missing, corrupt archive, archive without the binary, other platforms only, another architecture of the same OS only / listed first, no assets, empty catalogue, draft, pre-release, older, equal, equal but tampered, non-semver tag, rc tag newer / older than / of the running version, newest release unusable with an older usable one behind it, unordered catalogues) x 5 running versions, and for four flows one HTTP fault (500, 404, 403, 403 with the rate-limit headers of the API, truncated body, connection reset, empty 200) at each request index 1..4 x 2 running versions; plus, for three installing flows x 3 running versions, a local fault while the new executable is put in place (every rename fails; every write to, or the creation of, the temporary file next to the executable fails; injected with strace): the executable must be the old one or the complete verified payload, and status 0 only with the payload; plus PRNG catalogues of 0..6 releases with random attributes and faults. " +
+		Rule: "the built CLI (variants with main.version = v2.0.0, v0.0.0-dev, empty -> 'dev', v2.1.0-rc.1 and v3.0.0-beta.2), copied into a sandbox, runs `self-update` against a fake of the GitHub release API (TLS-intercepting CONNECT proxy, selected only through HTTPS_PROXY / SSL_CERT_FILE). Enumerated: 38 catalogues (newer verified release, checksum mismatching / for another file / for names that only contain the asset's name / truncated / of the unpacked payload / empty / missing / right but spelled in upper case, with CRLF or with the binary marker (installing and refusing both accepted), corrupt archive, archive without the binary, other platforms only, another architecture of the same OS only / listed first, no assets, empty catalogue, draft, pre-release, older, equal, equal but tampered, non-semver tag, rc tag newer / older than / of the running version, newest release unusable with an older usable one behind it, unordered catalogues) x 5 running versions, and for four flows one HTTP fault (500, 404, 403, 403 with the rate-limit headers of the API, truncated body, connection reset, empty 200) at each request index 1..4 x 2 running versions; plus, for three installing flows x 3 running versions, a local fault while the new executable is put in place (every rename fails; every write to, or the creation of, the temporary file next to the executable fails; injected with strace): the executable must be the old one or the complete verified payload, and status 0 only with the payload; plus PRNG catalogues of 0..6 releases with random attributes and faults. " +
 			"Oracle: a model of the statement decides install / fail / nothing-to-do; install: exit 0 and the executable equals the payload of the best release's linux_amd64 asset and is executable; fail: sha256 unchanged and exit != 0; nothing-to-do: unchanged. Trace property over the fake's request log: the executable changes only if the asset and the checksum file of the same release were both served completely. No file is left next to the executable; no runtime fault or panic. Non-trivial = every scenario.",
 		Cases:         c20Cases,
 		Check:         c20Check,
